@@ -61,6 +61,100 @@ def _build_head_mapping(series, head_step, result):
                          exists(0, it, lambda j: g_at[j][0] == h)))))
 
 
+@spec
+def crossing_filed(R, T, P, S, p):
+    """Crossing p of one series (R = what regrid yielded for it) is filed under its own level, at place P[p] of that
+    level's list T[level], and S[level][P[p]] points back to p."""
+    return (R[p][0] in T and 0 <= P[p] and P[p] < len(T[R[p][0]]) and T[R[p][0]][P[p]] == R[p][1]
+            and R[p][0] in S and S[R[p][0]][P[p]] == p)
+
+
+@spec
+def level_list_traced(R, T, P, S, n, h):
+    """Every entry of the list filed under level h is a crossing of level h (among the first n yielded), filed at that
+    place: with crossing_filed, the list T[h] is exactly the crossings of level h, each once."""
+    return (h in S and len(S[h]) == len(T[h]) and len(T[h]) >= 1
+            and forall(0, len(T[h]), lambda i: 0 <= S[h][i] and S[h][i] < n and R[S[h][i]][0] == h and P[S[h][i]] == i))
+
+
+@contract("spowtd.fit_offsets:build_head_mapping#means",
+          args={"series": "list[tuple[array[real],array[real]]]", "head_step": "real"},
+          returns="dict[int,list[tuple[int,real]]]")
+def _build_head_mapping_means(series, head_step, result):
+    """C13 ("each of its crossing values equals the mean crossing position computed from that interval's own
+    samples"): the value entered for series s at level h is the arithmetic mean of exactly the positions regrid
+    reports for series s at level h.  Ghost state per series s: g_cross[s] (what regrid yielded), g_times[s]
+    (level -> positions filed), g_pos[s] / g_src[s] (the bijection between the crossings of a level and the places of
+    its list), and g_psum[(s, h)] (partial sums of g_times[s][h]: the entered value is the last partial sum divided by
+    the number of positions)."""
+    requires(head_step > 0)
+    requires(series_ok(series))
+    may_raise(ValueError)
+    ghost(before="head_mapping = {}", let="g_cross", do=lambda: [])
+    ghost(before="head_mapping = {}", let="g_times", do=lambda: [])
+    ghost(before="head_mapping = {}", let="g_pos", do=lambda: [])
+    ghost(before="head_mapping = {}", let="g_src", do=lambda: [])
+    ghost(before="head_mapping = {}", let="g_psum", do=lambda: {})
+    ghost(after="all_times = {}", let="g_p", do=lambda: [])
+    ghost(after="all_times = {}", let="g_s", do=lambda: {})
+    ghost(after="all_times.setdefault(head_id, []).append(time)", let="g_p", do=lambda: g_p + [len(all_times[head_id]) - 1])
+    ghost(after="all_times.setdefault(head_id, []).append(time)", do=lambda: g_s.setdefault(head_id, []).append(loop_it(1)))
+    ghost(after="all_times.setdefault(head_id, []).append(time)", let="g_s", do=lambda: g_s)
+    loop(1, types={"all_times": "dict[int,list[real]]", "g_p": "list[int]", "g_s": "dict[int,list[int]]"},
+         inv=lambda it: len(g_p) == it
+         and forall_int(lambda h: (h in g_s) == (h in all_times))
+         and forall(0, it, lambda p: crossing_filed(loop_seq(1), all_times, g_p, g_s, p))
+         and forall_int(lambda h: implies(h in all_times, level_list_traced(loop_seq(1), all_times, g_p, g_s, it, h))))
+    ghost(before="for head_id, time in list(all_times.items())", let="g_at", do=lambda: list(all_times.items()))
+    ghost(before="for head_id, time in list(all_times.items())", let="g_cross", do=lambda: g_cross + [loop_seq(1)])
+    ghost(before="for head_id, time in list(all_times.items())", let="g_times", do=lambda: g_times + [all_times])
+    ghost(before="for head_id, time in list(all_times.items())", let="g_pos", do=lambda: g_pos + [g_p])
+    ghost(before="for head_id, time in list(all_times.items())", let="g_src", do=lambda: g_src + [g_s])
+    ghost(after="t_mean = ", let="g_psum", do=lambda: dict_put(g_psum, (series_id, head_id), prefix_sums(time)))
+    loop(2, types={"head_mapping": "dict[int,list[tuple[int,real]]]", "g_psum": "dict[tuple[int,int],list[real]]"},
+         inv=lambda it: forall_int(lambda h: implies(h in head_mapping, len(head_mapping[h]) >= 1
+             and forall(0, len(head_mapping[h]), lambda q: 0 <= head_mapping[h][q][0] and head_mapping[h][q][0] <= series_id)))
+         and forall(0, series_id, lambda s: forall_int(lambda h: implies(h in g_times[s],
+             (s, h) in g_psum and is_prefix_sums(g_times[s][h], g_psum[(s, h)]))))
+         and forall(0, it, lambda j: (series_id, g_at[j][0]) in g_psum
+                    and is_prefix_sums(all_times[g_at[j][0]], g_psum[(series_id, g_at[j][0])]))
+         and forall_int(lambda h: implies(h in head_mapping, forall(0, len(head_mapping[h]), lambda q:
+             h in g_times[head_mapping[h][q][0]]
+             and (head_mapping[h][q][0] < series_id or exists(0, it, lambda j: g_at[j][0] == h))
+             and head_mapping[h][q][1] == g_psum[(head_mapping[h][q][0], h)][len(g_times[head_mapping[h][q][0]][h]) - 1]
+             / len(g_times[head_mapping[h][q][0]][h])))))
+    loop(0, types={"head_mapping": "dict[int,list[tuple[int,real]]]", "g_cross": "list[list[tuple[int,real]]]",
+                   "g_times": "list[dict[int,list[real]]]", "g_pos": "list[list[int]]", "g_src": "list[dict[int,list[int]]]",
+                   "g_psum": "dict[tuple[int,int],list[real]]"},
+         inv=lambda it: len(g_cross) == it and len(g_times) == it and len(g_pos) == it and len(g_src) == it
+         and forall_int(lambda h: implies(h in head_mapping, len(head_mapping[h]) >= 1
+             and forall(0, len(head_mapping[h]), lambda q: 0 <= head_mapping[h][q][0] and head_mapping[h][q][0] < it)))
+         and forall(0, it, lambda s: len(g_pos[s]) == len(g_cross[s])
+                    and forall(0, len(g_cross[s]), lambda p: crossing_filed(g_cross[s], g_times[s], g_pos[s], g_src[s], p)))
+         and forall(0, it, lambda s: forall_int(lambda h: implies(h in g_times[s],
+             level_list_traced(g_cross[s], g_times[s], g_pos[s], g_src[s], len(g_cross[s]), h))))
+         and forall(0, it, lambda s: forall_int(lambda h: implies(h in g_times[s],
+             (s, h) in g_psum and is_prefix_sums(g_times[s][h], g_psum[(s, h)]))))
+         and forall_int(lambda h: implies(h in head_mapping, forall(0, len(head_mapping[h]), lambda q:
+             h in g_times[head_mapping[h][q][0]]
+             and head_mapping[h][q][1] == g_psum[(head_mapping[h][q][0], h)][len(g_times[head_mapping[h][q][0]][h]) - 1]
+             / len(g_times[head_mapping[h][q][0]][h])))))
+    ensures(len(g_cross) == len(series) and len(g_times) == len(series) and len(g_pos) == len(series) and len(g_src) == len(series))
+    # every position regrid reports for series s is filed under its level ...
+    ensures(forall(0, len(series), lambda s: len(g_pos[s]) == len(g_cross[s])
+                   and forall(0, len(g_cross[s]), lambda p: crossing_filed(g_cross[s], g_times[s], g_pos[s], g_src[s], p))))
+    # ... and nothing else is
+    ensures(forall(0, len(series), lambda s: forall_int(lambda h: implies(h in g_times[s],
+            level_list_traced(g_cross[s], g_times[s], g_pos[s], g_src[s], len(g_cross[s]), h)))))
+    # the entered value is the mean of that list
+    ensures(forall(0, len(series), lambda s: forall_int(lambda h: implies(h in g_times[s],
+            (s, h) in g_psum and is_prefix_sums(g_times[s][h], g_psum[(s, h)])))))
+    ensures(forall_int(lambda h: implies(h in result, forall(0, len(result[h]), lambda q:
+            0 <= result[h][q][0] and result[h][q][0] < len(series) and h in g_times[result[h][q][0]]
+            and result[h][q][1] == g_psum[(result[h][q][0], h)][len(g_times[result[h][q][0]][h]) - 1]
+            / len(g_times[result[h][q][0]][h])))))
+
+
 @contract("spowtd.fit_offsets:get_connected_components", args={"head_mapping": "dict[int,set[int]]"},
           returns="list[list[int]]")
 def _get_connected_components(head_mapping, result):
